@@ -11,6 +11,8 @@ CONSTANTS
   Modes = {"pruned"}
   MaxRestarts = 0
   MaxDeletes = 2
+  MaxReadFaults = 0
+  MaxAbortFaults = 0
   IntraHead = FALSE
   LazyChain = FALSE
   SimBias = FALSE
